@@ -34,6 +34,7 @@ type Step struct {
 	Expect    []string `json:"expect,omitempty"`
 	HasExpect bool     `json:"has_expect,omitempty"`
 	Fails     string   `json:"fails,omitempty"`
+	SameEngineOnly bool `json:"same_engine_only,omitempty"` // replicas are compared with nodes of their own engine only
 }
 
 func (s *Step) IsScenario() bool { return strings.HasPrefix(s.Name, "scn:") }
